@@ -58,6 +58,8 @@ type Runner struct {
 	created map[string]cfgArgs // per index: arguments of its latest successful VCreate
 	Minted  map[string]string  // model id -> engine-minted id (VEvolve)
 	LastErr string             // error text of the last failed call
+	// Raw, when non-nil, is refilled by every Observe with the exact vectors VGet returned ("index/id" -> copy)
+	Raw map[string][]float32
 	// ExtraHook, when set, receives every verif hook event raised while an operation runs
 	// (used to take crash images at hook points)
 	ExtraHook func(name string, kv []any)
@@ -831,6 +833,9 @@ func sortedStrings(s []string) []any {
 func (r *Runner) Observe() (obs map[string]any) {
 	e := r.E
 	obs = map[string]any{}
+	if r.Raw != nil {
+		r.Raw = map[string][]float32{}
+	}
 	// vectors handed out by the engine alias its mmap arena: a read of an unmapped arena must
 	// surface as an observation ("FAULT"), not kill the replayer
 	old := debug.SetPanicOnFault(true)
@@ -947,6 +952,9 @@ func (r *Runner) observeIndex(n string) map[string]any {
 			continue
 		}
 		items[id] = map[string]any{"vec": r.vecToken(d.Vector, metric, prec), "meta": r.metaTokens(d.Metadata)}
+		if r.Raw != nil {
+			r.Raw[n+"/"+id] = append([]float32(nil), d.Vector...)
+		}
 	}
 	// cross-check VGetMany against VGet
 	realIDs := make([]string, len(probeList))
